@@ -476,6 +476,10 @@ def check_weighted(c, net, A, W, directed):
     c.cmp("path_lengths/link-weighted", lambda: net.path_lengths("w"), D, nontrivial=nt)
     c.cmp("average_path_length/link-weighted", lambda: net.average_path_length("w"), S.average_path_length(D),
           nontrivial=nt)
+    if any(A[i][j] and W[i][j] == 0 for i in range(n) for j in range(n)):
+        # links of length 0: distances and their average are defined (a zero-length link is a link); the inverse-distance
+        # measures (efficiency, closeness, vulnerability) and weight-product measures are not judged on such inputs
+        return
     c.cmp("global_efficiency/link-weighted", lambda: net.global_efficiency("w"), S.global_efficiency(D))
     c.cmp("local_vulnerability/link-weighted", lambda: net.local_vulnerability("w"), S.local_vulnerability(A, W))
     cl = S.closeness(D)
@@ -756,6 +760,9 @@ def random_weights(rng, A, directed, choices=None):
         W = rng.uniform(0.25, 4.0, size=(n, n))
     else:
         W = rng.choice(choices, size=(n, n))
+    if rng.randint(5) == 0:
+        # some links of length exactly 0 (co-located nodes): a legal link attribute value, not "no link"
+        W = np.where(rng.random_sample((n, n)) < 0.3, 0.0, W)
     if not directed:
         W = np.triu(W, 1)
         W = W + W.T
